@@ -153,4 +153,59 @@ C16_SELECT = dict(
     ignore=["logger.warning(__a)", "logger.info(__a)"],
 )
 
-ALL = [C16_FILTER, C17_SAMPLE, C06_SELECT, C06_SCORE_CHUNK, C16_SELECT]
+# ---- ChunkedScoresHolder: the two numpy arrays are lists, `self` is (scores, plate_ids, current_index) ----
+_HOLDER_ATTRS = {"self.scores": "scores", "self.plate_ids": "plate_ids", "self.current_index": "current_index"}
+_HOLDER_STATE = [("scores", "list Z"), ("plate_ids", "list Z"), ("current_index", "Z")]
+
+C06_ADD_SCORE = dict(
+    file="src/batchie/scoring/main.py", cls="ChunkedScoresHolder", func="add_score",
+    out="SrcScoring.v", imports="Model.Scores", name="src_add_score",
+    pyparams=["self", "plate_id", "score"], attr_vars=_HOLDER_ATTRS,
+    params=_HOLDER_STATE + [("plate_id", "Z"), ("score", "Z")],
+    returns="(list Z * list Z * Z)", vars={}, prims=[],
+    index_error=4,                                             # a[i] = v past the end
+    implicit_return="({scores}, {plate_ids}, {current_index})",   # the state of self when the method ends
+)
+
+C06_COMBINE = dict(
+    file="src/batchie/scoring/main.py", cls="ChunkedScoresHolder", func="combine",
+    out="SrcScoring.v", imports="Model.Scores", name="src_combine",
+    pyparams=["self", "other"],
+    attr_vars=dict(_HOLDER_ATTRS, **{"other.scores": "other_scores", "other.plate_ids": "other_plate_ids"}),
+    params=_HOLDER_STATE + [("other_scores", "list Z"), ("other_plate_ids", "list Z")],
+    returns="(list Z * list Z * Z)", vars={"scores": "list Z", "plate_ids": "list Z"},
+    prims=[
+        ("np.concatenate((__a, __b))", "{a} ++ {b}", "list Z", {"a": "list Z", "b": "list Z"}),
+        ("len(__a)", "Z.of_nat (length {a})", "Z"),
+        ("self", "(scores', plate_ids', current_index')", "(list Z * list Z * Z)"),     # `return self`: its state at that point
+    ],
+)
+
+C06_MIN_SCORE = dict(
+    file="src/batchie/scoring/main.py", cls="ChunkedScoresHolder", func="plate_id_with_minimum_score",
+    out="SrcScoring.v", imports="Model.Scores", name="src_plate_id_with_minimum_score",
+    pyparams=["self", "eligible_plate_ids"], attr_vars=_HOLDER_ATTRS,
+    params=[("scores", "list Z"), ("plate_ids", "list Z"), ("eligible_plate_ids", "opt list Z")],
+    returns="Z", vars={"mask": "list bool"},
+    prims=[
+        ("__a[__i].item()", "!array_item {a} {i}", "Z", {"a": "list Z", "i": "Z"}),
+        ("__a.argmin()", "!argmin_index {a}", "Z", {"a": "list Z"}),       # numpy: first minimum, ValueError on empty
+        ("np.isin(__a, __l)", "isin {a} {l}", "list bool", {"a": "list Z", "l": "list Z"}),
+        ("__a[__m]", "!mask_select {a} {m}", "list Z", {"a": "list Z", "m": "list bool"}),
+    ],
+)
+
+C06_CONCAT = dict(
+    file="src/batchie/scoring/main.py", cls="ChunkedScoresHolder", func="concat",
+    out="SrcScoring.v", imports="Model.Scores", name="src_concat",
+    pyparams=["cls", "scores_list"], params=[("scores_list", "list holder")],
+    returns="holder", vars={"current": "holder", "scores": "holder"},
+    prims=[
+        ("__l[0]", "!list_head {l}", "holder", {"l": "list holder"}),
+        ("__l[1:]", "tl {l}", "list holder", {"l": "list holder"}),
+        ("__a.combine(__b)", "h_combine {a} {b}", "holder", {"a": "holder", "b": "holder"}),   # linked by C06_COMBINE
+    ],
+    raises=[("Must provide at least one ChunkedScoresHolder", 5)],
+)
+
+ALL = [C16_FILTER, C17_SAMPLE, C06_SELECT, C06_SCORE_CHUNK, C16_SELECT, C06_ADD_SCORE, C06_COMBINE, C06_MIN_SCORE, C06_CONCAT]
